@@ -881,8 +881,8 @@ impl Gen
         let mut files : Vec<(String, Vec<u8>)> = self.files.iter().map(|(p, c)| (p.clone(), c.clone())).collect();
         files.push(("README".to_string(), b"bystander".to_vec()));
         let leaf = self.leaves[0].clone();
-        // (one soak in eight is an old workspace: beyond a thousand, beyond two thousand states)
-        let k = if self.rng.chance(1, 8) { *self.rng.pick(&[1030usize, 2100]) } else { *self.rng.pick(&[20usize, 40, 70, 70, 100, 140]) };
+        // (one soak in forty is an old workspace: beyond a thousand, beyond two thousand states)
+        let k = if self.rng.chance(1, 40) { *self.rng.pick(&[1030usize, 2100]) } else { *self.rng.pick(&[20usize, 40, 70, 70, 100, 140]) };
         let mut ops = vec![];
         let state = |i : usize| format!("{}@{}", leaf, i).into_bytes();
         let serial = || SchedSpec{ strategy : Strategy::Serial, seed : 0 };
